@@ -190,6 +190,11 @@ func TestVerifC14(t *testing.T) {
 			scs = append(scs, schedItem{Scen{Graph: g, Pair: p, Opt: "default", Feat: "full", Pre: "empty", Stall: true}, 1, false})
 		}
 	}
+	// the copy's own bookkeeping locks as scheduling points too (the "seen" record that makes parts
+	// sharing a blob wait for one transfer is a check-then-act under a mutex), two departures
+	for _, g := range []string{"SH-00-00", "SH-01-10", "G19"} {
+		scs = append(scs, schedItem{Scen{Graph: g, Pair: "two-reg", Opt: "default", Feat: "full", Pre: "empty", CopyLocks: true}, 2, false})
+	}
 	// the same between two registries that each have a (reachable, empty) mirror configured: what the
 	// target holds is still decided by the target
 	for _, g := range []string{"G1", "G3", "G15", "G18", "G19"} {
